@@ -23,5 +23,7 @@ def Impl.koron : Impl where
   blockIO := fun f _ _ => f
   -- DD CB d op: the final opcode byte is fetched as an M1 cycle too
   ddcbM1 := 3
+  -- the supplied opcode of a mode-0 request is read with an M1 fetch (R advances once)
+  im0M1 := true
 
 end Z80.Spec
